@@ -53,7 +53,7 @@ func genC05(t *rapid.T) C05Case {
 			op.Other = rapid.IntRange(0, c.NSess-1).Draw(t, "pairother")
 			op.Answer = rapid.SampledFrom([]string{"first-first", "second-first"}).Draw(t, "pairorder")
 		case "roots":
-			op.Answer = rapid.SampledFrom([]string{"own", "own", "foreign", "foreign-error", "cancel", "precancel"}).Draw(t, "answer")
+			op.Answer = rapid.SampledFrom([]string{"own", "own", "own-error", "foreign", "foreign-error", "cancel", "precancel"}).Draw(t, "answer")
 			op.Other = rapid.IntRange(0, c.NSess-1).Draw(t, "other")
 			if (op.Answer == "foreign" || op.Answer == "foreign-error") && (op.Other == op.Sess || c.Kind == 2) {
 				op.Answer = "own"
@@ -527,6 +527,14 @@ func (cw *c05World) roots(op C05Op, s *refSess, nonce, where string) *Failure {
 		cw.post(cw.sess[op.Other], fmt.Sprintf(`{"jsonrpc":"2.0","id":%s,"error":{"code":-32000,"message":"foreign-%d says no"}}`, id, op.Other))
 		time.Sleep(2 * time.Millisecond)
 		answer(s, fmt.Sprintf("own-%d", op.Sess))
+	case "own-error":
+		// the addressed session refuses the request with a JSON-RPC error object
+		eb := fmt.Sprintf(`{"jsonrpc":"2.0","id":%s,"error":{"code":-32601,"message":"own-%d does not list roots"}}`, id, op.Sess)
+		if s.stdio != nil {
+			s.stdio.in.Write([]byte(eb + "\n"))
+		} else {
+			cw.post(s, eb)
+		}
 	case "precancel":
 		// nothing to answer: the request was given up before it was issued
 	case "cancel":
@@ -578,6 +586,12 @@ func (cw *c05World) roots(op C05Op, s *refSess, nonce, where string) *Failure {
 		s.consumed = len(s.stream.Events())
 	}
 	switch op.Answer {
+	case "own-error":
+		// an error answer is an answer: the request ends (with an error or an empty result, the statement does not say
+		// which) and leaves nothing pending - checked when the case ends
+		if strings.Contains(text, "file:///") {
+			return Failf("C05/roots-result", "%s: ListRoots returned %q although the session answered with an error", where, text)
+		}
 	case "precancel":
 		if !strings.HasPrefix(text, "err:") {
 			return Failf("C05/cancel-result", "%s: a roots/list issued under a context that was already cancelled returned %q", where, text)
